@@ -1,4 +1,5 @@
 import ScrapliModel.Send
+import ScrapliModel.SendFault
 open Scrapli Scrapli.Send
 
 /-!
@@ -14,6 +15,10 @@ comma separated with "." = empty list):
   levels    name,pattern,name,pattern,…       fwc  N | S<hex> | L<list>
   outs      mode,line,out triples             moves mode,line,newmode triples
   navs      records joined by "|": target;belief;mode;ok;lines
+
+  F <point> <kind> <k> <op> … (the 18 fields above)      the same operation over the FAILING channel (SendFault.lean):
+            point bw|al|ar|rl   kind timeout|conn   k = user/abort send_input calls that succeed first
+            reply: <timeout|conn|ok|index|priv|nav> <log> <wire> <belief> <mode> <usable 0|1>
 
 reply:  <err> <log> <wire> <resps> <belief> <mode> <merged>
   log    origin:mode:line entries   resps/merged  failed:result
@@ -130,6 +135,43 @@ def handleOp (f : List String) : Option String :=
       pure (showRes r.1 r.2)
     | "cfgsfile" => pure (showRes (sendConfigsFromFile env cfg fwc stop priv eager (← hexStr arg) st) none)
     | _ => none
+  | "F" :: pt :: kind :: k :: [op, plat, stack, ret, markers, dpriv, levels, generic, belief, mode, fwc, stop, priv, eager, arg, outs, moves, navs] => do
+    let point ← match pt with
+      | "bw" => some Point.beforeWrite | "al" => some Point.afterLine | "ar" => some Point.afterReturn
+      | "rl" => some Point.returnLost | _ => none
+    let kind ← match kind with | "timeout" => some FKind.timeout | "conn" => some FKind.conn | _ => none
+    let flt : Fault := ⟨point, kind⟩
+    let k ← k.toNat?
+    let plat ← parsePlatform plat
+    let isAsync := stack == "async"
+    let lv ← (← hexStrs levels) |> pairs
+    let cfg : Cfg := { ret := ← hexStr ret, defaultMarkers := ← hexStrs markers, defaultPriv := ← hexStr dpriv,
+                       levels := lv, genericMode := ← parseBool generic,
+                       abort := match plat with | some p => platformAbort p isAsync | none => .nothing }
+    let outsL ← (← Hex.decodeList outs) |> triples
+    let outsT ← outsL.mapM fun (m, l, o) => do pure ((← toStr m), (← toStr l), o)
+    let movesT ← (← hexStrs moves) |> triples
+    let env := mkEnv outsT movesT (← parseNavs navs)
+    let fs : FSt Str := ⟨{ belief := ← hexStr belief, mode := ← hexStr mode }, k⟩
+    let fwc ← parseFwc fwc
+    let stop ← parseBool stop
+    let eager ← parseBool eager
+    let priv ← hexStr priv
+    let r ← match op with
+      | "gcmds" => pure (genericSendCommandsF env cfg.ret flt .user fwc stop eager (← hexStrs arg) fs)
+      | "gfile" => pure (genericSendCommandsFromFileF env cfg.ret flt fwc stop eager (← hexStr arg) fs)
+      | "cmd" => pure (sendCommandF env cfg flt fwc (← hexStr arg) fs)
+      | "cmds" => pure (sendCommandsF env cfg flt fwc stop eager (← hexStrs arg) fs)
+      | "cmdsfile" => pure (sendCommandsFromFileF env cfg flt fwc stop eager (← hexStr arg) fs)
+      | "cfgs" => pure (sendConfigsF env cfg flt fwc stop priv eager (← hexStrs arg) fs)
+      | "cfg" => pure (sendConfigF env cfg flt fwc stop priv eager (← hexStr arg) fs)
+      | "cfgsfile" => pure (sendConfigsFromFileF env cfg flt fwc stop priv eager (← hexStr arg) fs)
+      | _ => none
+    match r with
+    | .fault fk f =>
+      pure s!"{match fk with | .timeout => "timeout" | .conn => "conn"} {showLog f.st.log} {Hex.encode f.st.writes.flatten} {strHex f.st.belief} {strHex f.st.mode} {if usableAfter flt then "1" else "0"}"
+    | .ok v f =>
+      pure s!"{showErr v.2} {showLog f.st.log} {Hex.encode f.st.writes.flatten} {strHex f.st.belief} {strHex f.st.mode} 1"
   | [op, arg] =>
     match op with
     | "split" => (hexStr arg).map fun s => showStrs (splitlines s)
